@@ -29,7 +29,7 @@ deriving DecidableEq, Repr
 def unrepaired : Fixes := ⟨false, false⟩
 def allFixed : Fixes := ⟨true, true⟩
 /-- THE line to flip when the fixes land in /repo -/
-def current : Fixes := unrepaired
+def current : Fixes := allFixed
 
 /-- cell `i` of a packed array of `w`-bit cells -/
 def cell (w data i : Nat) : Nat := (data >>> (w * i)) % 2 ^ w
